@@ -504,6 +504,76 @@ func headerClass(cls string) string {
 	return ""
 }
 
+// headerLines realises a sequence of abstract Authorization headers ("none", or items separated by "|":
+// "other", "xm:<origin a|A|b>:<key k1|k2>:<destination d|n|x>") as one header per line.
+func headerLines(name string) string {
+	if name == "none" {
+		return "<none>"
+	}
+	var out []string
+	for _, it := range strings.Split(name, "|") {
+		if it == "other" {
+			out = append(out, "Bearer abc")
+			continue
+		}
+		p := strings.Split(it, ":")
+		if len(p) != 4 || p[0] != "xm" {
+			fatalf("bad header item %q", it)
+		}
+		origin := map[string]string{"a": "hs1", "A": "HS1", "b": "hs2"}[p[1]]
+		key := map[string]string{"k1": "ed25519:1", "k2": "ed25519:2"}[p[2]]
+		h := `X-Matrix origin="` + origin + `",key="` + key + `",sig="` + b64(make([]byte, 64)) + `"`
+		switch p[3] {
+		case "d":
+			h += `,destination="hs9"`
+		case "x":
+			h += `,destination="hs3"`
+		}
+		out = append(out, h)
+	}
+	return strings.Join(out, "\n")
+}
+
+// headersClass is the canonical class of a header sequence: how many of the headers are X-Matrix and how their
+// origins / key IDs relate.
+func headersClass(name string) string {
+	if name == "none" {
+		return "headers:n=0"
+	}
+	items := strings.Split(name, "|")
+	var origins, keys, dests []string
+	for _, it := range items {
+		if p := strings.Split(it, ":"); len(p) == 4 {
+			origins, keys, dests = append(origins, p[1]), append(keys, p[2]), append(dests, p[3])
+		}
+	}
+	rel := func(xs []string, fold bool) string {
+		same, sameFold := true, true
+		for _, x := range xs {
+			if x != xs[0] {
+				same = false
+			}
+			if !strings.EqualFold(x, xs[0]) {
+				sameFold = false
+			}
+		}
+		switch {
+		case len(xs) < 2:
+			return "single"
+		case same:
+			return "same"
+		case fold && sameFold:
+			return "case-only"
+		}
+		return "different"
+	}
+	if len(origins) == 0 {
+		return "headers:xmatrix=0"
+	}
+	_ = dests // the destinations are part of the concrete input, not of the class
+	return fmt.Sprintf("headers:xmatrix=%d;origins=%s;keys=%s", len(origins), rel(origins, true), rel(keys, false))
+}
+
 func rawInput(r *rec) []byte {
 	switch r.Type {
 	case "ident":
@@ -524,6 +594,8 @@ func rawInput(r *rec) []byte {
 		return keyResponse(r.C1, r.C2)
 	case "header":
 		return []byte(headerClass(r.C1))
+	case "headers":
+		return []byte(headerLines(r.C1))
 	case "event":
 		_, raw, err := buildSubject(r.Ver, r.P2, []fault{{r.P1, r.K1, r.C1}})
 		if err != nil {
@@ -546,6 +618,9 @@ func execRaw(r *rec) hx.Result {
 	}
 	if r.Type == "event" {
 		cls = "event-json:" + classKey([]fault{{r.P1, r.K1, r.C1}})
+	}
+	if r.Type == "headers" {
+		cls = headersClass(r.C1)
 	}
 	s := &pipeState{class: cls, raw: data}
 	for _, op := range r.Ops {
